@@ -334,6 +334,8 @@ class CallMixin:
         ctypes = dict(c.types)
         ctypes.update({g: (k[0] if isinstance(k, tuple) else k) for g, k in c.ghost.items()})
         env = self.contract_env(st, c, env, ctypes)
+        if 'zk_env' in c.modifies and not fr.spec:
+            self.zk_env_step(st)          # the environment moves first; old() in the contract is the state after it
         pre_heap = dict(st.heap)
         sf = self.spec_frame(fv.module, c.qual, fv.cls, env, old=(pre_heap, env))
         saved = st.env
@@ -432,6 +434,8 @@ class CallMixin:
                 for key in (FS_KIND, FS_TDIR, FS_TNAME, FS_CONTENT):
                     st.heap[key] = z3.Const(fresh_name('fs'), z3.ArraySort(I, AA))
                 st.heap[FS_CTIME] = z3.Const(fresh_name('fsct'), z3.ArraySort(I, AAR))
+                continue
+            if m == 'zk_env':
                 continue
             if m == 'zk':
                 for key, rng in self.ZK_KEYS.values():
